@@ -110,6 +110,8 @@ mod transaction;
 pub(crate) mod query;
 
 pub use database::Database;
+#[cfg(feature = "kahflane_turdb_verif")]
+pub use database::verif_hooks;
 pub use prepared::{BoundStatement, PreparedStatement};
 pub use row::Row;
 pub use timing::{
